@@ -244,7 +244,7 @@ def std_intensity(R=3, C=4, ws=3, bands=None, band=None, vmax=255, cap=60, block
                       assumptions=['C12 (std_intensity): reals-for-floats (rounding of the mean, variance and square root outside the claim)'])
 
 
-def regularization(R=2, C=3, kernel=1, depth=0, cap=120, block=()):
+def regularization(R=2, C=3, kernel=1, depth=0, cap=120, block=(), nan_pixel=False):
     """interval_regularization (+ create_connected_graph, graph_regularization) with quantile 1: bounds can only widen, the ambiguity band
     handed in is not modified.  Data-dependent shapes: the segment borders are concretised by forking."""
     from vf import symnp as S, instr
@@ -264,9 +264,14 @@ def regularization(R=2, C=3, kernel=1, depth=0, cap=120, block=()):
             EX.assume(z3.And(a.t.val >= -8, b.t.val <= 8, a.t.val <= b.t.val))
         for e in amb._a.flat:
             EX.assume(z3.And(e.t.val >= 0, e.t.val <= 1))
+        if nan_pixel:
+            # a point whose cost curve was entirely NaN: compute_interval_bounds leaves NaN bounds there and its ambiguity confidence is 0
+            # (it sits in a low-confidence segment); the regularisation has to ignore it
+            inf_._a[0, 0] = np.float32('nan'); sup_._a[0, 0] = np.float32('nan')
+            EX.assume(amb._a[0, 0].t.val == 0)
         col.shapes = shapes
         amb0 = amb.copy(); i0 = inf_.copy(); s0 = sup_.copy()
-        ex = {'regularization': True, 'R': R, 'C': C, 'kernel': kernel, 'depth': depth}
+        ex = {'regularization': True, 'R': R, 'C': C, 'kernel': kernel, 'depth': depth, 'nan_pixel': nan_pixel}
         try:
             oi, os_, om = IT.interval_regularization(inf_.copy(), sup_.copy(), amb, 0.6, kernel, depth, 1.0)
         except S.Unsupported:
@@ -277,7 +282,9 @@ def regularization(R=2, C=3, kernel=1, depth=0, cap=120, block=()):
         for r in range(R):
             for c in range(C):
                 a = S.xlift(oi._a[r, c]) if isinstance(oi, S.SymArray) else S.xlift(oi[r, c]); b = S.xlift(os_._a[r, c]) if isinstance(os_, S.SymArray) else S.xlift(os_[r, c])
-                props.append(("quantile-1-regularisation-only-widens[%d,%d]" % (r, c), z3.And(a.tag == 0, b.tag == 0, a.val <= i0._a[r, c].t.val, b.val >= s0._a[r, c].t.val)))
+                if nan_pixel and (r, c) == (0, 0):
+                    continue          # the NaN point itself: whatever the regularisation writes there is not an interval of a valid pixel
+                props.append(("quantile-1-regularisation-only-widens[%d,%d]" % (r, c), z3.And(a.tag == 0, b.tag == 0, a.val <= S.xlift(i0._a[r, c]).val, b.val >= S.xlift(s0._a[r, c]).val)))
         col.check_path(props, label='p%d' % len(EX.trace), extra=ex, witnesses=[("reached", z3.BoolVal(True))])
         info['fn'] = instr.fn_hash(IT.interval_regularization, IT.graph_regularization, IT.create_connected_graph)
     res, stats = explore(h, max_paths=4000, time_cap_s=900)
@@ -290,6 +297,8 @@ def replay(cex):
         import pandora.interval_tools as IT
         R, C = x['R'], x['C']
         i0 = np.array(inp['inf'], np.float32).reshape(R, C); s0 = np.array(inp['sup'], np.float32).reshape(R, C); a0 = np.array(inp['amb'], np.float32).reshape(R, C)
+        if x.get('nan_pixel'):
+            i0[0, 0] = np.nan; s0[0, 0] = np.nan
         a = a0.copy()
         try:
             oi, os_, om = IT.interval_regularization(i0.copy(), s0.copy(), a, 0.6, x['kernel'], x['depth'], 1.0)
@@ -298,8 +307,12 @@ def replay(cex):
         bad = []
         if not np.array_equal(a, a0):
             bad.append('the ambiguity band handed in was modified: %s -> %s' % (a0.tolist(), a.tolist()))
-        if (oi > i0).any() or (os_ < s0).any():
-            bad.append('regularisation with quantile 1 narrowed an interval')
+        with np.errstate(all='ignore'):
+            fin = ~np.isnan(i0)
+            if (oi[fin] > i0[fin]).any() or (os_[fin] < s0[fin]).any():
+                bad.append('regularisation with quantile 1 narrowed an interval')
+            if np.isnan(oi[fin]).any() or np.isnan(os_[fin]).any():
+                bad.append('regularisation turned the interval of a pixel with finite bounds into NaN: inf %s -> %s' % (i0.tolist(), np.asarray(oi).tolist()))
         return {'violates': bool(bad), 'detail': '; '.join(bad)}
     if x.get('std_intensity'):
         import xarray as xr
@@ -417,4 +430,16 @@ def replay(cex):
                 w = int(np.nanargmin(sgn * row)) - 1
                 if not (binf[r, c] <= w <= bsup[r, c]):
                     bad.append('interval (%d,%d) = [%r, %r] does not bracket the winner %d (costs %s)' % (r, c, float(binf[r, c]), float(bsup[r, c]), w, cv[r, c].tolist()))
+                # definition: extreme disparities whose possibility 1 - |c - c_best| (normalised costs) reaches the threshold, widened by
+                # one sample when the extreme disparity is itself a best one
+                bestv = np.nanmin(sgn * row) * sgn
+                poss = np.where(fin, 1 - sgn * (row - bestv), -1.0)
+                okd = [d_ for d_ in range(D) if fin[d_] and poss[d_] >= x['threshold'] - 1e-9]
+                if okd:
+                    first, last = okd[0], okd[-1]
+                    e_lo = max(first - 1, 0) if abs(row[first] - bestv) < 1e-9 else first
+                    e_hi = min(last + 1, D - 1) if abs(row[last] - bestv) < 1e-9 else last
+                    if float(binf[r, c]) != e_lo - 1 or float(bsup[r, c]) != e_hi - 1:
+                        bad.append('interval (%d,%d) = [%r, %r], the definition (possibility >= %s) gives [%d, %d] (normalised costs %s)' % (
+                            r, c, float(binf[r, c]), float(bsup[r, c]), x['threshold'], e_lo - 1, e_hi - 1, row.tolist()))
     return {'violates': bool(bad), 'detail': '; '.join(bad[:3])}
